@@ -231,4 +231,88 @@ deriving DecidableEq, Repr
 def ArgCountCheck.rejectsCount (c : ArgCountCheck) (n : Nat) : Bool :=
   c.rejects.any (·.eval n false)
 
+/-! ## unchecked type assertions `x.(T)` with their guard -/
+
+/-- how an unchecked assertion is guarded (classified syntactically by extract/errfacts/assertsites.go) -/
+inductive AssertGuard where
+  | inCase                                        -- inside `case T:` of a type switch over the same expression
+  | afterOk                                       -- dominated by a successful `_, ok := x.(T)`
+  | oneOf (src : String) (excl : List String)     -- x comes from `src` (a function / a parser-node field) whose possible dynamic
+                                                  -- types are listed in the table; dominating tests exclude `excl`
+  | keyed (src : String) (keys : List String)   -- x was fetched by NAME from `src`, which picks the type of its result by that
+                                                  -- name; the site stands in `case <keys>:` of a switch over the same name
+  | unknown (why : String)
+deriving DecidableEq, Repr
+
+structure AssertSite where
+  file : String
+  fn : String
+  line : Nat
+  ord : Nat          -- which occurrence of (x, T) in the function, in source order
+  expr : String
+  typ : String
+  guard : AssertGuard
+deriving DecidableEq, Repr
+
+/-- Go's rule for `x.(T)`: it succeeds iff the dynamic type of x is T (T concrete) or implements T (T an interface);
+    a nil interface value ("nil") has no dynamic type and fails.  `impl` lists the (concrete, interface) pairs that hold. -/
+def canAssert (impl : List (String × String)) (dyn typ : String) : Bool :=
+  dyn != "nil" && dyn != "?" && (dyn == typ || impl.contains (dyn, typ))
+
+def lookupSrc (sources : List (String × List String)) (src : String) : Option (List String) :=
+  (sources.find? (·.1 == src)).map (·.2)
+
+abbrev KeyedTable := List (String × List (String × List String))
+
+def lookupKeyed (keyed : KeyedTable) (src key : String) : Option (List String) :=
+  match keyed.find? (·.1 == src) with
+  | none => none
+  | some e => (e.2.find? (·.1 == key)).map (·.2)
+
+/-- the checker: safe by the class of the guard -/
+def AssertSite.ok (sources : List (String × List String)) (keyed : KeyedTable) (impl : List (String × String)) (s : AssertSite) : Bool :=
+  match s.guard with
+  | .keyed src keys =>
+    !keys.isEmpty && keys.all (fun k => match lookupKeyed keyed src k with
+      | none => false
+      | some ts => ts.all (fun d => canAssert impl d s.typ))
+  | .inCase => true
+  | .afterOk => true
+  | .oneOf src excl =>
+    match lookupSrc sources src with
+    | none => false
+    | some ts => ts.all (fun d => excl.contains d || canAssert impl d s.typ)
+  | .unknown _ => false
+
+/-- `x.(T)` succeeds on a value of dynamic type `dyn` ("nil" = the nil interface value) -/
+def Succeeds (impl : List (String × String)) (dyn typ : String) : Prop :=
+  dyn ≠ "nil" ∧ (dyn = typ ∨ (dyn, typ) ∈ impl)
+
+/-- what the guard establishes about the dynamic type of x at the site:
+    `case T:` of a type switch is taken, and `_, ok := x.(T)` yields ok, exactly when `x.(T)` succeeds (Go specification);
+    a source with a table entry yields one of the listed types, and the dominating tests rule out `excl`;
+    a value fetched by name, inside `case <keys>:` of a switch over that name, was stored under one of these keys -/
+def AssertSite.admits (sources : List (String × List String)) (keyed : KeyedTable) (impl : List (String × String)) (s : AssertSite) (dyn : String) : Prop :=
+  match s.guard with
+  | .keyed src keys => ∃ k ∈ keys, ∀ ts, lookupKeyed keyed src k = some ts → dyn ∈ ts
+  | .inCase => Succeeds impl dyn s.typ
+  | .afterOk => Succeeds impl dyn s.typ
+  | .oneOf src excl =>
+    match lookupSrc sources src with
+    | none => True
+    | some ts => dyn ∈ ts ∧ dyn ∉ excl
+  | .unknown _ => True
+
+/-- a site named without its line number -/
+structure AssertRef where
+  file : String
+  fn : String
+  expr : String
+  typ : String
+  ord : Nat
+deriving DecidableEq, Repr
+
+def AssertRef.is (r : AssertRef) (s : AssertSite) : Bool :=
+  r.ord == s.ord && r.expr == s.expr && r.typ == s.typ && r.fn == s.fn && r.file == s.file
+
 end Csvq.ErrFacts
